@@ -5,7 +5,10 @@ import (
 	"errors"
 	"fmt"
 	"math/rand"
+	"mellium.im/xmpp/verifharness/props/c15"
+	"mellium.im/xmpp/verifharness/props/c18"
 	"runtime"
+	"strings"
 	"sync"
 	"time"
 
@@ -207,12 +210,67 @@ func runStress(c *core.Case) {
 	w.settle(smp, done)
 }
 
+// The statement also covers the extension helpers that block on a correlated
+// reply: MUC join/leave and in-band bytestream open/close/read.  Their
+// workloads (real sessions, raw peers, forced interleavings at the muc.* and
+// ibb.* yield points) live with C18 and C15; a slice of each runs here too, and
+// of their oracles the part that is this property: one outcome per call, no
+// panic, no permanent stall of the serve loop, no race in the wait machinery.
+const (
+	subMUCQuick, subIBBQuick       = 480, 150
+	subMUCThorough, subIBBThorough = 4000, 3000
+)
+
+func subCounts(tier string) (muc, ibb int) {
+	if tier == "thorough" {
+		return subMUCThorough, subIBBThorough
+	}
+	return subMUCQuick, subIBBQuick
+}
+
+func ownCases(tier string) int {
+	if tier == "thorough" {
+		return len(forcedList) + 25000
+	}
+	return len(forcedList) + 60
+}
+
+func keepMUC(key string) bool {
+	for _, p := range []string{"stall:", "panic:", "fatal:", "race:", "muc:join:", "muc:leave:", "muc:session-ended"} {
+		if strings.HasPrefix(key, p) {
+			return true
+		}
+	}
+	return false
+}
+
+func keepIBB(key string) bool {
+	for _, p := range []string{"stall:", "panic:", "fatal:", "race:", "ibb:open:", "ibb:close:", "ibb:eof:", "ibb:session-ended"} {
+		if strings.HasPrefix(key, p) {
+			return true
+		}
+	}
+	return false
+}
+
 func run(c *core.Case) {
 	if c.Index < len(forcedList) {
 		runForced(c, forcedList[c.Index])
 		return
 	}
-	runStress(c)
+	own := ownCases(c.Tier)
+	nMUC, _ := subCounts(c.Tier)
+	switch {
+	case c.Index < own:
+		runStress(c)
+	case c.Index < own+nMUC:
+		c.Count("muc_wait_cases", 1)
+		c.RunSub(c18.Prop(), c.Index-own, keepMUC)
+	default:
+		// (C15's first ten indexes include its long sequence-wrap run)
+		c.Count("ibb_wait_cases", 1)
+		c.RunSub(c15.Prop(), 10+c.Index-own-nMUC, keepIBB)
+	}
 }
 
 var _ = ctrl.New
@@ -220,7 +278,9 @@ var _ = ctrl.New
 // Prop returns the C06 check.
 func Prop() *core.Prop {
 	req := []string{"stress_histories", "sentinels_answered", "routed_to_caller", "routed_to_handler", "porcupine_partitions",
-		"receipts_acknowledged", "receipts_cancelled", "forced_scenarios", "fast_peer_holds", "fast_peer_answer_processed_while_sender_held", "requests_explicitly_namespaced"}
+		"receipts_acknowledged", "receipts_cancelled", "forced_scenarios", "fast_peer_holds", "fast_peer_answer_processed_while_sender_held", "requests_explicitly_namespaced",
+		"muc_wait_cases", "ibb_wait_cases", "C18/join_success", "C18/join_cancelled", "C18/join_room_error_returned", "C18/leave_success", "C18/barriers", "C18/forced_M1_reached",
+		"C15/transfers", "C15/eof_after_close", "C15/refused_opens", "C15/listener_cases"}
 	for _, v := range vias {
 		req = append(req, "requests:"+v.name)
 	}
@@ -236,14 +296,12 @@ func Prop() *core.Prop {
 		Assumptions: []string{
 			"when a reply and a cancellation overlap, routing to the caller or to the handler are both legal",
 			"callers always close the responses they receive (documented contract)",
-			"MUC join/leave and IBB open/close/read waits share this property's yield points but are exercised by the C18 and C15 workloads",
+			"MUC join/leave and IBB open/close/read waits are decided by running a slice of the C18 and C15 workloads inside this check and keeping, of their oracles, the keys about call outcomes, panics, stalls and races (counters and signatures prefixed C18/ and C15/)",
 			"for the Unmarshal/Iter entry points an error reply's number is not visible to the caller; it is resolved to the matching error reply that did not reach the handler",
 		},
 		Cases: func(tier string) int {
-			if tier == "thorough" {
-				return len(forcedList) + 25000
-			}
-			return len(forcedList) + 60
+			m, i := subCounts(tier)
+			return ownCases(tier) + m + i
 		},
 		Run:           run,
 		Require:       req,
